@@ -1241,6 +1241,21 @@ func MonitorC06(res *Result) []vh.Violation {
 			}
 		}
 	}
+	// "recreated, with a fresh group_wait, by the next alert": a new activation that starts at or after the end of the
+	// stored one (no overlap of the activity ranges) reaches the dispatcher with ITS OWN start time (the dispatcher skips
+	// group_wait for alerts that started more than group_wait ago)
+	prev := map[string]sim.AlertObs{}
+	for _, r := range res.Recs {
+		if r.Kind != "publish" || len(r.Alerts) == 0 {
+			continue
+		}
+		pub := r.Alerts[0]
+		k := pub.Labels.String()
+		if p, ok := prev[k]; ok && r.Raw != nil && p.Ends != 0 && r.Raw.Starts >= p.Ends && r.Raw.Ends > p.Ends && pub.Starts != r.Raw.Starts {
+			add("refire-keeps-old-start", fmt.Sprintf("alert %s: activation [%d,%d] submitted at %d after the stored one ended at %d was handed on with start %d", pub.Labels, r.Raw.Starts-res.T0, r.Raw.Ends-res.T0, r.T-res.T0, p.Ends-res.T0, pub.Starts-res.T0))
+		}
+		prev[k] = pub
+	}
 	// every notification batch carries alerts of exactly one group
 	for gk, fs := range res.Flushes() {
 		for _, f := range fs {
